@@ -227,6 +227,10 @@ def build(node, counter, registry=None, path=()):
                     pairs.append((a2, b2))
         for k, v in node["sdef"]:
             S.set_param(pn(k), v)
+        # Solver.set_param is a METHOD: it must act on its own solver also when that solver is no longer (or not) the
+        # innermost active one — half of the hierarchies apply the late defaults after the with-block has been left
+        late_ok = "replaced" not in node and (len(node["children"]) + len(node["sdef"])) % 2 == 0
+        late = []
         for a in node["adds"]:
             argnames = [pn(x) for x, _ in a["args"]]
             if a.get("intro"):
@@ -239,11 +243,16 @@ def build(node, counter, registry=None, path=()):
             if node.get("set_after") and a["args"]:
                 # a solver default given AFTER the definition must be honoured by the function
                 x, d = a["args"][0]
-                S.set_param(pn(x), d + 0.75)
+                if late_ok:
+                    late.append((pn(x), d + 0.75))
+                else:
+                    S.set_param(pn(x), d + 0.75)
         if "replaced" in node:
             rep = {"wl": None}
             rep.update({pn(k): v for k, v in node["replaced"]})
             lk.set_default_params(rep)
+    for name, v in late:
+        S.set_param(name, v)
     if registry is not None:
         registry[path] = (S, pairs)
     return S, pairs
